@@ -21,7 +21,14 @@ STD_AXIOMS = {
     'ClassicalDedekindReals.sig_not_dec': 'real-number axiom of the Coq standard library',
     'FunctionalExtensionality.functional_extensionality_dep': 'functional extensionality (standard library, used by Reals)',
     'Classical_Prop.classic': 'excluded middle (standard library Classical_Prop, used by Reals/Coquelicot/Interval)',
+    'ProofIrrelevance.proof_irrelevance': 'proof irrelevance (standard library)',
+    'Eqdep.Eq_rect_eq.eq_rect_eq': 'Streicher K / eq_rect_eq (standard library Eqdep)',
+    'JMeq.JMeq_eq': 'JMeq_eq (standard library)',
+    'ClassicalEpsilon.constructive_indefinite_description': 'indefinite description (standard library ClassicalEpsilon, used by Coquelicot)',
+    'PropExtensionality.propositional_extensionality': 'propositional extensionality (standard library)',
 }
+
+PRIMITIVE = re.compile(r'^(PrimFloat\.|PrimInt63\.|Uint63\.(?!.*_spec)|float$|int$|abs$|div$|opp$|sqrt$|frshiftexp$|ldshiftexp$|normfr_mantissa$|of_uint63$|next_up$|next_down$|classify$|compare$)')
 
 # ------------------------------------------------------------------------------------------
 # exact transport of floats
@@ -287,9 +294,20 @@ class Ctx:
         self.cov['obligations'] += total
         self.cov['discharged'] += total - len(failed)
         used = set(a for v in axioms.values() for a in v)
+        prims = sorted(a for a in used if PRIMITIVE.match(a))
+        if prims:
+            tb = 'kernel primitives (native 63-bit integers / binary64 floats, not axioms of this development): ' + ', '.join(prims)
+            if tb not in self.cov['trusted_base']:
+                self.cov['trusted_base'].append(tb)
         for a in sorted(used):
+            if PRIMITIVE.match(a):
+                continue
             if a in STD_AXIOMS:
                 tb = 'axiom %s: %s' % (a, STD_AXIOMS[a])
+            elif a.startswith('FloatAxioms.'):
+                tb = 'axiom %s: specification of the primitive binary64 operations declared by the Coq standard library (Floats.FloatAxioms)' % a
+            elif a.startswith('Uint63Axioms.') or a.startswith('Uint63.') and a.endswith('_spec'):
+                tb = 'axiom %s: specification of the primitive 63-bit integers declared by the Coq standard library' % a
             else:
                 tb = 'axiom/assumption reported by Print Assumptions: %s' % a
             if tb not in self.cov['trusted_base']:
